@@ -22,7 +22,10 @@ SamePieces(got, exp) ==
               [] exp[i].k = "plurals" -> /\ got[i].rt = exp[i].rt /\ got[i].ck = exp[i].ck /\ DOMAIN got[i].forms = DOMAIN exp[i].forms
                                          /\ \A f \in DOMAIN exp[i].forms : SamePieces(got[i].forms[f], exp[i].forms[f])
               [] OTHER -> got[i] = exp[i]
-SameTree(got, exp) == got.lit = exp.lit /\ SamePieces(got.c, exp.c)
+\* how a file format types an integer literal is its own business (JSON: unsigned when it can, JSON5 / YAML readers: signed):
+\* the two integer types are interchangeable here, the text is what counts
+SameLit(a, b) == a = b \/ {a, b} \subseteq {"Unsigned", "Signed"}
+SameTree(got, exp) == SameLit(got.lit, exp.lit) /\ SamePieces(got.c, exp.c)
 
 Own(P, x, k) == EntryOf(P, x, k).k \notin {"abs", "null", "group"}
 
